@@ -351,6 +351,20 @@ func (f *FuncCtx) specType(text string) types.Type {
 			tv, err = tv2, nil
 		}
 	}
+	if err != nil && f.spec != nil && f.spec.pkg != nil && f.spec.pkg != pkg {
+		// ... whose package-qualified names live in that package's file scopes
+		for _, lp := range f.E.pkgs {
+			if lp.Types != f.spec.pkg {
+				continue
+			}
+			for _, file := range lp.Syntax {
+				if tv2, err2 := types.Eval(lp.Fset, lp.Types, file.Name.End(), text); err2 == nil {
+					tv, err = tv2, nil
+					break
+				}
+			}
+		}
+	}
 	if err != nil {
 		// package-qualified names live in file scopes: try each file of the package
 		for _, file := range f.Pkg.Syntax {
